@@ -117,7 +117,7 @@ def run_drivers(procs, jobs, timeout):
 def plan(tier, rng):
     """Configurations: (backend, max_workers, rounds, sessions, own driver process per session?)."""
     if tier == "quick":
-        proc = [("mp_pool", 2, 2, 2), ("mp_pool", 1, 1, 2), ("cf_procpool", 2, 1, 2)]
+        proc = [("mp_pool", 2, 2, 2), ("cf_procpool", 2, 1, 2)]
         thr = [("cf_threadpool", w, 2, 6) for w in (1, 2, 4)] + [(None, None, 2, 3), ("serial", 1, 2, 2)]
         seeds = [42 + rng.randrange(1000)]
     else:
@@ -133,8 +133,6 @@ def run(tier, seed):
     n = 4 if tier == "quick" else 5
     proc, thr, seeds = plan(tier, rng)
     names = ["inproc"] + [f"{be}_w{w}_s{j}" for be, w, _, m in proc for j in range(m)]
-    if tier == "thorough":      # at most 8 process-pool drivers at a time: two waves
-        pass
     procs = start_drivers(names if tier == "quick" else ["inproc"])
     try:
         return _run(tier, rng, procs, proc, thr, seeds, n, t0)
@@ -184,7 +182,7 @@ def _run(tier, rng, procs, proc, thr, seeds, n, t0):
             finally:
                 kill_drivers(wave)
     else:
-        got = run_drivers(procs, jobs, timeout=85)
+        got = run_drivers(procs, jobs, timeout=400)      # generous: a loaded machine must not turn into a machinery failure
     t_drivers = time.time() - t0 - t_models
 
     # ---- traces
